@@ -74,8 +74,8 @@ Example ex_fallback :
 Proof. vm_compute. reflexivity. Qed.
 
 (* guards of iter_df_printed / ofv_designated hold on it and the objective value is the designated one *)
-Example ex_guards : g_has_iter0 ex_g = true /\ g_final_obj_eq_last ex_g = true.
-Proof. split; vm_compute; reflexivity. Qed.
+Example ex_guards : g_final_obj_eq_last ex_g = true.
+Proof. vm_compute. reflexivity. Qed.
 
 Example ex_ofv_designated :
   exists t entries,
@@ -107,13 +107,13 @@ Definition ex_ext_titled (k : list nat) (lastlabel : text) : wtable :=
            (removelast (w_labels ex_ext) ++ [lastlabel]) (w_rows ex_ext) true 0 true.
 Definition ex_file : list wtable := [ex_ext_titled [1]%nat [83;65;69;77;79;66;74]; ex_ext_titled [1;2]%nat s_OBJ].
 
-Example ex_file_wf : wfile_ok SExt ex_file = true /\
+Example ex_file_wf : wfile_ok SExt false ex_file = true /\
   wtitle_ok (ex_title [7]%nat (Some [68;45;79;80;84]) None) = true /\ labels_obj_ok (w_labels (ex_ext_titled [1]%nat [83;65;69;77;79;66;74])) = true.
 Proof. repeat split; vm_compute; reflexivity. Qed.
 
 (* the SAEMOBJ column is read as OBJ; two tables; 1128 characters *)
 Example ex_file_read :
-  match read_table_file SExt false (render_wfile ex_file) with
+  match read_table_file SExt false false (render_wfile ex_file) with
   | ROk [a; b] => (last (f_cols (tb_frame a)) [], option_map t_number (tb_title b), length (f_rows (tb_frame b)))
   | _ => ([], None, 0%nat) end = (s_OBJ, Some 12, 5%nat).
 Proof. vm_compute. reflexivity. Qed.
@@ -125,8 +125,31 @@ Definition ex_tab : wtable :=
      [sci false [1;0;0;0;0;0]%nat false [0;0]%nat; sci false [3;5;0;0;0;0]%nat true [0;1]%nat];
      [sci false [2;0;0;0;0;0]%nat false [0;0]%nat; sci false [0;0;0;0;0;0]%nat false [0;0]%nat]]
     false 2 true.
-Example ex_tab_wf : wfile_ok SOther [ex_tab; ex_tab] = true /\ length (lines (render_wfile [ex_tab])) = 6%nat.
+Example ex_tab_wf : wfile_ok SOther false [ex_tab; ex_tab] = true /\ length (lines (render_wfile [ex_tab])) = 6%nat.
 Proof. split; vm_compute; reflexivity. Qed.
+
+(* NOLABEL: title line but no label line, read with nolabel: the columns are numbered, all three records kept *)
+Definition ex_nolabel : wtable :=
+  mkWTable (w_title ex_tab) (w_labels ex_tab) (w_rows ex_tab) false 0 false.
+Example ex_nolabel_wf :
+  wfile_ok SOther true [ex_nolabel] = true /\
+  match read_table_file SOther false true (render_wfile [ex_nolabel]) with
+  | ROk [a] => (f_cols (tb_frame a), length (f_rows (tb_frame a)))
+  | _ => ([], 0%nat) end = ([[48]; [49]], 3%nat).
+Proof. split; vm_compute; reflexivity. Qed.
+
+(* NOTITLE: label line, no title *)
+Example ex_notitle_wf :
+  wtable_notitle_ok false (mkWTable None (w_labels ex_tab) (w_rows ex_tab) false 2 true) = true.
+Proof. vm_compute. reflexivity. Qed.
+
+(* iter_df_final_only: a design-evaluation table (special rows only) *)
+Example ex_final_only :
+  let g := mkFrame (f_cols ex_g) (skipn 2 (f_rows ex_g)) in
+  existsb cell_ge0 (col_cells g s_ITERATION) = false /\ existsb (cell_is code_final) (col_cells g s_ITERATION) = true /\
+  match get_iter_df g with ROk h => map (fun ir => (fst ir, nth 0 (snd ir) CNaN)) (f_rows h) | _ => [] end =
+  [(0%nat, CNum 0)].
+Proof. repeat split; vm_compute; reflexivity. Qed.
 
 (* ---- tables and lines ---- *)
 Definition two_tables : text := title1 ++ [32;65;10;32;49;10] ++ title1 ++ [32;65;10;32;50;10].
